@@ -82,11 +82,18 @@ structure Pkt.WF (p : Pkt) : Prop where
   pad : p.padLen < 256
 
 theorem validHdr_of_WF (h : Hdr) (wf : h.WF) : validHdr h = true := by
+  have hpt : h.pt.toNat ≤ 0x7F := by
+    have := wf.pt
+    have h2 : h.pt.toNat < 128 := by simpa [UInt8.lt_iff_toNat_lt] using this
+    omega
   simp only [validHdr, rtpMaxCsrc_val, Bool.and_eq_true]
-  refine ⟨decide_eq_true wf.ncsrc, ?_⟩
-  cases he : h.ext with
-  | none => rfl
-  | some e => simp [wf.extAligned e he]
+  refine ⟨⟨⟨decide_eq_true hpt, decide_eq_true wf.ncsrc⟩, ?_⟩, ?_⟩
+  · cases he : h.ext with
+    | none => rfl
+    | some e => simp [wf.extAligned e he]
+  · cases he : h.ext with
+    | none => rfl
+    | some e => have := wf.extLen e he; simp; omega
 
 /-- what `protect` puts after the header when it uses rollover count `roc` -/
 def rtpWireBody (S : Suite) (c : Ctx) (p : Pkt) (roc : Nat) : Bytes :=
@@ -148,10 +155,10 @@ theorem unprotect_wireBody (S : Suite) (cs cr : Ctx) (p : Pkt) (wf : p.WF)
 def rtcpWire (S : Suite) (c : Ctx) (pkt : Bytes) (index : Nat) : Bytes :=
   if c.profile = .gcm then
     pkt.take 8 ++ S.aeadSeal c.rtcp.ck (gcmRtcpNonce c.rtcp.salt c.ssrc index)
-      (pkt.take 8 ++ be32 (withEBit index)) (pkt.drop 8) ++ be32 (withEBit index)
+      (pkt.take 8 ++ be32 (c.eWord index)) (pkt.drop 8) ++ be32 (c.eWord index)
   else
-    (if pkt.length > 8 then rtcpCipher S c index pkt else pkt) ++ be32 (withEBit index) ++
-      rtcpTag S c ((if pkt.length > 8 then rtcpCipher S c index pkt else pkt) ++ be32 (withEBit index))
+    (if pkt.length > 8 ∧ c.encrypts then rtcpCipher S c index pkt else pkt) ++ be32 (c.eWord index) ++
+      rtcpTag S c ((if pkt.length > 8 ∧ c.encrypts then rtcpCipher S c index pkt else pkt) ++ be32 (c.eWord index))
 
 theorem protectRtcp_eq (S : Suite) (c : Ctx) (pkt : Bytes) :
     c.protectRtcp S pkt =
@@ -181,68 +188,83 @@ theorem withEBit_props (index : Nat) (h : index < 2147483648) :
   simp only [srtcpEBit_val, srtcpIndexMask_val, srtcpIndexMaskCm_val]
   omega
 
+/-- the `E ‖ index` word: below 2^32, carries the index, and `E` is set exactly when the profile encrypts -/
+theorem eWord_props (c : Ctx) (index : Nat) (h : index < 2147483648) :
+    c.eWord index < 4294967296 ∧ (c.eWord index ≥ srtcpEBit ↔ c.encrypts = true) ∧
+    c.eWord index % (srtcpIndexMask + 1) = index ∧ c.eWord index % (srtcpIndexMaskCm + 1) = index := by
+  obtain ⟨h1, h2, h3, h4⟩ := withEBit_props index h
+  unfold Ctx.eWord
+  cases he : c.encrypts with
+  | true => simp only [if_true]; exact ⟨h1, ⟨fun _ => trivial, fun _ => h2⟩, h3, h4⟩
+  | false =>
+    simp only [Bool.false_eq_true, if_false, srtcpEBit_val, srtcpIndexMask_val, srtcpIndexMaskCm_val]
+    refine ⟨by omega, ⟨fun hh => by omega, fun hh => by simp at hh⟩, by omega, by omega⟩
+
+theorem encrypts_gcm {c : Ctx} (h : c.profile = .gcm) : c.encrypts = true := by simp [Ctx.encrypts, h]
+
 /-- a receiver context with the sender's SSRC, profile and RTCP session keys recovers exactly the
 RTCP packet from what `protect_rtcp` produced with index `index < 2^31` -/
 theorem unprotect_rtcpWire (S : Suite) (cs cr : Ctx) (pkt : Bytes) (index : Nat)
     (hlen : 8 ≤ pkt.length) (hidx : index < 2147483648)
     (hs : cr.ssrc = cs.ssrc) (hp : cr.profile = cs.profile) (hk : cr.rtcp = cs.rtcp) :
     cr.unprotectRtcp S (rtcpWire S cs pkt index) = (.ok pkt, cr.bumpRtcp index) := by
-  obtain ⟨he1, he2, he3, he4⟩ := withEBit_props index hidx
+  obtain ⟨he1, he2, he3, he4⟩ := eWord_props cs index hidx
+  have henc : cr.encrypts = cs.encrypts := by simp [Ctx.encrypts, hp]
   have ht : (pkt.take 8).length = 8 := by simp [List.length_take]; omega
   by_cases hg : cs.profile = .gcm
   · -- AEAD
     have hw : rtcpWire S cs pkt index = pkt.take 8 ++ S.aeadSeal cs.rtcp.ck (gcmRtcpNonce cs.rtcp.salt cs.ssrc index)
-        (pkt.take 8 ++ be32 (withEBit index)) (pkt.drop 8) ++ be32 (withEBit index) := by
+        (pkt.take 8 ++ be32 (cs.eWord index)) (pkt.drop 8) ++ be32 (cs.eWord index) := by
       simp [rtcpWire, hg]
     have hwl : (rtcpWire S cs pkt index).length = pkt.length + 20 := by
       rw [hw]; simp [S.seal_len, ht]; omega
     unfold Ctx.unprotectRtcp
     simp only [hp, hg, rtcpTagLen_gcm, srtpTagLenGcm_val, if_true]
     rw [if_neg (by omega)]
-    have hl4 : last4 (rtcpWire S cs pkt index) = withEBit index := by
+    have hl4 : last4 (rtcpWire S cs pkt index) = cs.eWord index := by
       rw [hw]; exact last4_append_be32 _ _ he1
     have htk : (rtcpWire S cs pkt index).take 8 = pkt.take 8 := by
       rw [hw, List.append_assoc]; exact List.take_left' ht
     have hmid : ((rtcpWire S cs pkt index).take ((rtcpWire S cs pkt index).length - 4)).drop 8 =
         S.aeadSeal cs.rtcp.ck (gcmRtcpNonce cs.rtcp.salt cs.ssrc index)
-          (pkt.take 8 ++ be32 (withEBit index)) (pkt.drop 8) := by
+          (pkt.take 8 ++ be32 (cs.eWord index)) (pkt.drop 8) := by
       have : (rtcpWire S cs pkt index).length - 4 =
           (pkt.take 8 ++ S.aeadSeal cs.rtcp.ck (gcmRtcpNonce cs.rtcp.salt cs.ssrc index)
-            (pkt.take 8 ++ be32 (withEBit index)) (pkt.drop 8)).length := by
+            (pkt.take 8 ++ be32 (cs.eWord index)) (pkt.drop 8)).length := by
         rw [hwl]; simp [S.seal_len, ht]; omega
       rw [this, hw, List.take_left' rfl, List.drop_left' ht]
     simp only [hl4, he3, htk, hmid, hk, hs, S.open_seal, List.take_append_drop]
   · -- AES-CM / NULL with HMAC
     have hg' : cr.profile ≠ .gcm := by rw [hp]; exact hg
-    let enc := if pkt.length > 8 then rtcpCipher S cs index pkt else pkt
-    have henc : enc.length = pkt.length := by
+    let enc := if pkt.length > 8 ∧ cs.encrypts then rtcpCipher S cs index pkt else pkt
+    have henc' : enc.length = pkt.length := by
       simp only [enc]; split
       · exact rtcpCipher_length S cs index pkt hlen
       · rfl
-    have hw : rtcpWire S cs pkt index = (enc ++ be32 (withEBit index)) ++ rtcpTag S cs (enc ++ be32 (withEBit index)) := by
+    have hw : rtcpWire S cs pkt index = (enc ++ be32 (cs.eWord index)) ++ rtcpTag S cs (enc ++ be32 (cs.eWord index)) := by
       simp [rtcpWire, hg, enc]
-    have htl := rtcpTag_length S cs (enc ++ be32 (withEBit index)) hg
+    have htl := rtcpTag_length S cs (enc ++ be32 (cs.eWord index)) hg
     have htag : ∀ m, rtcpTag S cr m = rtcpTag S cs m := by intro m; simp [rtcpTag, hk, hp]
     have hciph : ∀ b, rtcpCipher S cr index b = rtcpCipher S cs index b := by
       intro b; simp [rtcpCipher, hk, hs]
     unfold Ctx.unprotectRtcp
     simp only [hp, hg, if_false]
     have hwl : (rtcpWire S cs pkt index).length = pkt.length + 4 + cs.profile.rtcpTagLen := by
-      rw [hw]; simp [htl, henc]; omega
+      rw [hw]; simp [htl, henc']; omega
     rw [if_neg (by omega)]
-    have hsplit : (rtcpWire S cs pkt index).length - cs.profile.rtcpTagLen = (enc ++ be32 (withEBit index)).length := by
-      rw [hwl]; simp [henc]
+    have hsplit : (rtcpWire S cs pkt index).length - cs.profile.rtcpTagLen = (enc ++ be32 (cs.eWord index)).length := by
+      rw [hwl]; simp [henc']
     rw [hsplit, hw, List.take_left' rfl, List.drop_left' rfl, htag]
     rw [if_neg (by simp)]
     rw [last4_append_be32 _ _ he1]
-    have hbody : (enc ++ be32 (withEBit index)).take ((enc ++ be32 (withEBit index)).length - 4) = enc := by
+    have hbody : (enc ++ be32 (cs.eWord index)).take ((enc ++ be32 (cs.eWord index)).length - 4) = enc := by
       simp only [List.length_append, be32_length, Nat.add_sub_cancel]
       exact List.take_left' rfl
-    simp only [hbody, he4, henc]
-    by_cases h8 : pkt.length > 8
-    · rw [if_pos ⟨he2, h8⟩]
+    simp only [hbody, he4, henc', henc]
+    by_cases h8 : pkt.length > 8 ∧ cs.encrypts = true
+    · rw [if_pos ⟨he2.mpr h8.2, h8.2, h8.1⟩]
       simp only [enc, if_pos h8, hciph, rtcpCipher_involutive S cs index pkt hlen]
-    · rw [if_neg (by intro hh; exact h8 hh.2)]
+    · rw [if_neg (by intro hh; exact h8 ⟨hh.2.2, hh.2.1⟩)]
       simp only [enc, if_neg h8]
 
 end RtcModel.Srtp
